@@ -8,8 +8,9 @@
   Spec:  Spec/Amf.lean (the reference AMF/SMF as a judge of the uplink transcript), Spec/NasSecurity.lean, Spec/SetupRequest.lean.
 
   What is proved for ALL configurations / counts / choices, and what is not:
-    C02_prerequisites          all integer counts (negative, zero, above N): every invocation index of a later loop is below the
-                               number of completed prerequisite procedures                                   — full
+    C02_generated_bounds       the loop bounds `gen script` extracts from stg-utg.go on every run are the expected Min clamps
+    C02_prerequisites          all integer counts (negative, zero, above N), the extracted bounds: every invocation index of a
+                               later loop is below the number of completed prerequisite procedures              — full
     C02_lifecycle              a completed test-mode run: the UE list is CreateUE(imsi, 0..n-1) in order, no loop indexes beyond
                                it, and no procedure changes a UE's SUPI / RAN-UE-NGAP-ID / credentials / AMF-UE-NGAP-ID — full
     C02_ids                    distinct SUPIs and RAN-UE-NGAP-IDs (C16) for the created population                — full (C16's domain)
@@ -31,30 +32,54 @@ namespace Stgutg.Props.C02
 open Stgutg Stgutg.Model.Emulator Stgutg.Proofs.Emulator Stgutg.Builders
 open Stgutg.Model.NasProtect Stgutg.Proofs.NasProtect Stgutg.Spec.NasSecurity
 
-/-! ### prerequisites: the `Min` clamps -/
+/-! ### prerequisites: the `Min` clamps, read from the source on every run -/
 
-/-- **C02_prerequisites.** For all integer repetition counts — negative, zero, larger than the number of UEs — every
-    invocation index `i` of the establishment loop is below the number of registrations, every index of the service
-    request and release loops is below the number of establishments, every index of the de-registration loop is below
-    the number of registrations: no procedure is attempted for a UE that has not completed its prerequisite. -/
-theorem C02_prerequisites (reg pdu svc rel dereg : Int) (i : Nat) :
-    let n := numbers reg pdu svc rel dereg
-    ((i : Int) < n.establish → (i : Int) < reg) ∧
+open Stgutg.Model.FailStop in
+/-- **C02_generated_bounds.** Table fact over the script `gen script` extracts from stg-utg.go on every check (variables
+    inlined): the loop that calls `RegisterUE` runs `ue_registration` times, and the loops that call `EstablishPDU`,
+    `ServiceRequest`, `ReleasePDU`, `DeregisterUE` are bounded by exactly these `stgutg.Min` expressions. An edit of a clamp
+    in stg-utg.go (another operand, a dropped `Min`) changes the generated expression and breaks this theorem. -/
+theorem C02_generated_bounds :
+    loopBound "RegisterUE" = .cfg "Test_ue_registation" ∧
+    loopBound "EstablishPDU" = .min (.cfg "Test_ue_registation") (.cfg "Test_ue_pdu_establishment") ∧
+    loopBound "ServiceRequest" = .min (.min (.cfg "Test_ue_registation") (.cfg "Test_ue_pdu_establishment")) (.cfg "Test_ue_service") ∧
+    loopBound "ReleasePDU" = .min (.min (.cfg "Test_ue_registation") (.cfg "Test_ue_pdu_establishment")) (.cfg "Test_ue_pdu_release") ∧
+    loopBound "DeregisterUE" = .min (.cfg "Test_ue_registation") (.cfg "Test_ue_deregistration") := by decide
+
+/-- the bounds test mode uses (the generated expressions, evaluated) are the clamps as one reads them in the source -/
+theorem genNumbers_eq (c : Model.FailStop.Counts) :
+    genNumbers c = numbers c.reg c.pdu c.svc c.rel c.dereg ∧ genRegistrations c = c.reg := by
+  obtain ⟨h0, h1, h2, h3, h4⟩ := C02_generated_bounds
+  simp [genNumbers, genRegistrations, h0, h1, h2, h3, h4, numbers, Model.FailStop.CountExpr.eval, Model.FailStop.Counts.get]
+
+/-- **C02_prerequisites.** For all integer repetition counts — negative, zero, larger than the number of UEs — and the loop
+    bounds extracted from the source: every invocation index `i` of the establishment loop is below the number of
+    registrations, every index of the service request and release loops is below the number of establishments, every
+    index of the de-registration loop is below the number of registrations: no procedure is attempted for a UE that has
+    not completed its prerequisite. -/
+theorem C02_prerequisites (c : Model.FailStop.Counts) (i : Nat) :
+    let n := genNumbers c
+    ((i : Int) < n.establish → (i : Int) < genRegistrations c) ∧
     ((i : Int) < n.service → (i : Int) < n.establish) ∧
     ((i : Int) < n.release → (i : Int) < n.establish) ∧
-    ((i : Int) < n.deregister → (i : Int) < reg) := by
+    ((i : Int) < n.deregister → (i : Int) < genRegistrations c) := by
+  rw [(genNumbers_eq c).1, (genNumbers_eq c).2]
   simp only [numbers, Model.FailStop.goMin]
   refine ⟨?_, ?_, ?_, ?_⟩ <;> (repeat' split) <;> omega
 
 /-- the clamps are the specification's numbers: min(requested, completed prerequisites), never negative -/
-theorem C02_numbers_are_min (reg pdu svc rel dereg : Int) :
-    let n := numbers reg pdu svc rel dereg
-    n.establish.toNat = min reg.toNat pdu.toNat ∧ n.service.toNat = min n.establish.toNat svc.toNat ∧
-    n.release.toNat = min n.establish.toNat rel.toNat ∧ n.deregister.toNat = min reg.toNat dereg.toNat := by
+theorem C02_numbers_are_min (c : Model.FailStop.Counts) :
+    let n := genNumbers c
+    n.establish.toNat = min c.reg.toNat c.pdu.toNat ∧ n.service.toNat = min n.establish.toNat c.svc.toNat ∧
+    n.release.toNat = min n.establish.toNat c.rel.toNat ∧ n.deregister.toNat = min c.reg.toNat c.dereg.toNat := by
+  rw [(genNumbers_eq c).1]
   simp only [numbers, Model.FailStop.goMin]
   refine ⟨?_, ?_, ?_, ?_⟩ <;> (repeat' split) <;> omega
 
-example : numbers 2 5 1 7 (-3) = { establish := 2, service := 1, release := 2, deregister := -3 } := by decide
+example : genNumbers { reg := 2, pdu := 5, svc := 1, rel := 7, dereg := -3 }
+    = { establish := 2, service := 1, release := 2, deregister := -3 } := by decide
+/-- both `ue_pdu` and `ue_pdu_release` above the one registered UE: one release, not two -/
+example : (genNumbers { reg := 1, pdu := 2, svc := 0, rel := 2, dereg := 1 }).release = 1 := by decide
 
 /-! ### life cycle: which UE each loop iteration acts on -/
 
@@ -78,10 +103,10 @@ theorem C02_lifecycle (P : Prims) (E : Model.Convert.Ext) (cfg : Cfg) (w w' : Wo
       ues₀.map (·.ctx) = (List.range cfg.reg.toNat).map (fun k : Nat => (createUE cfg (k : Int)).ctx) ∧
       ues₁.map ident = ues₀.map ident ∧ ues₂.map ident = ues₀.map ident ∧
       ues₃.map ident = ues₀.map ident ∧ ues₄.map ident = ues₀.map ident ∧
-      (numbers cfg.reg cfg.pdu cfg.svc cfg.rel cfg.dereg).establish.toNat ≤ ues₀.length ∧
-      (numbers cfg.reg cfg.pdu cfg.svc cfg.rel cfg.dereg).service.toNat ≤ ues₀.length ∧
-      (numbers cfg.reg cfg.pdu cfg.svc cfg.rel cfg.dereg).release.toNat ≤ ues₀.length ∧
-      (numbers cfg.reg cfg.pdu cfg.svc cfg.rel cfg.dereg).deregister.toNat ≤ ues₀.length := by
+      (genNumbers (countsOf cfg)).establish.toNat ≤ ues₀.length ∧
+      (genNumbers (countsOf cfg)).service.toNat ≤ ues₀.length ∧
+      (genNumbers (countsOf cfg)).release.toNat ≤ ues₀.length ∧
+      (genNumbers (countsOf cfg)).deregister.toNat ≤ ues₀.length := by
   unfold testMode at h
   obtain ⟨w1, _, _, h⟩ := bind_ok _ _ _ _ _ h
   obtain ⟨w2, ues₀, h0, h⟩ := bind_ok _ _ _ _ _ h
@@ -100,7 +125,7 @@ theorem C02_lifecycle (P : Prims) (E : Model.Convert.Ext) (cfg : Cfg) (w w' : Wo
   have e2 := len _ _ (i2.trans i1)
   have e3 := len _ _ (i3.trans (i2.trans i1))
   refine ⟨ues₀, ues₁, ues₂, ues₃, ues₄, ?_, i1, i2.trans i1, i3.trans (i2.trans i1), i4.trans (i3.trans (i2.trans i1)), ?_, ?_, ?_, ?_⟩
-  · rw [r0]; simp [List.range_eq_range']
+  · rw [r0, (genNumbers_eq (countsOf cfg)).2]; simp [List.range_eq_range', countsOf]
   · omega
   · omega
   · omega
